@@ -27,3 +27,22 @@ theorem C14_echo_probing (c : Cfg) (s : Sess) (m : InMsg)
 /-- non-vacuity -/
 example : ∃ s : Sess, s.state = .successfulLogged ∧ s.dead = false ∧ s.routerStopped = false :=
   ⟨{ state := .successfulLogged, settings := {} }, rfl, rfl, rfl⟩
+
+theorem run_append (c : Cfg) (s : Sess) (es1 es2 : List Ev) :
+    run c s (es1 ++ es2) = ((run c (run c s es1).1 es2).1, (run c s es1).2 ++ (run c (run c s es1).1 es2).2) := by
+  induction es1 generalizing s with
+  | nil => simp [run]
+  | cons e es ih =>
+    simp only [List.cons_append, run]
+    rw [ih]
+    simp [List.append_assoc]
+
+/-- **answers leave in the order of the requests**: whatever comes before and after, the echo of a TestRequest is
+    emitted after everything the earlier events produced and before anything a later inbound message produces
+    (the FIFO pipeline of `C04_pipeline` keeps that order on the way to the wire) -/
+theorem C14_in_order (c : Cfg) (s0 : Sess) (before after : List Ev) (m : InMsg) :
+    (run c s0 (before ++ Ev.inbound m :: after)).2
+      = (run c s0 before).2 ++ (step c (run c s0 before).1 (.inbound m)).2
+          ++ (run c (step c (run c s0 before).1 (.inbound m)).1 after).2 := by
+  rw [run_append]
+  simp [run, List.append_assoc]
